@@ -13,3 +13,4 @@ pub mod linalg;
 pub mod openqasm;
 pub mod phase;
 pub mod rankwidth;
+pub mod scalar;
